@@ -203,7 +203,8 @@ public:
 	void FixUnusedDefinedVars() {
 		for (auto i=num_vars(); i--; ) {
 			if (HasInitExpression(i) &&
-					! VarUsageRef(i)) {
+					! VarUsageRef(i) &&         // Not if the defining constraint
+					IsUnused(GetInitExpression(i))) { // was reformulated before
 				set_var_lb(i, 0.0);      // fix to 0
 				set_var_ub(i, 0.0);
 			}
@@ -464,6 +465,11 @@ public:
   /// Revert MarkAsUnused()
   void MarkAsUsed(const ConInfo& ci) {
     ci.GetCK()->MarkAsUsed(ci.GetIndex());
+  }
+
+  /// Is constraint marked as unused?
+  bool IsUnused(const ConInfo& ci) const {
+    return ci.GetCK()->IsUnused(ci.GetIndex());
   }
 
 
